@@ -16,6 +16,8 @@ struct SubSt<B: Backend> {
     /// index in the model
     mj: usize,
     armed: Option<Arc<Flag>>,
+    own_waker: Option<(Arc<Flag>, std::task::Waker)>,
+    same_waker: bool,
     ever_polled: bool,
     last_ready: bool,
     done: bool,
@@ -51,6 +53,7 @@ struct World<B: Backend> {
     parked: Vec<usize>,
     model: Model,
     audit: bool,
+    same_mask: u8,
     counts: bool,
     adopt: bool,
     step: usize,
@@ -177,7 +180,13 @@ impl<B: Backend> World<B> {
         let Some(st) = self.subs[j].as_mut() else { return };
         self.sim_steps += 1;
         let was_armed_unwoken = st.armed_unwoken();
-        let (flag, wk) = wake::fresh();
+        let (flag, wk) = if st.same_waker {
+            let (f, w) = st.own_waker.get_or_insert_with(wake::fresh).clone();
+            f.clear();
+            (f, w)
+        } else {
+            wake::fresh()
+        };
         let mut cx = Context::from_waker(&wk);
         st.polls += 1;
         st.ever_polled = true;
@@ -489,7 +498,7 @@ impl<B: Backend> World<B> {
                     return;
                 }
                 let mj = self.model.subscribe(reset);
-                self.subs.push(Some(SubSt { sub, mj, armed: None, ever_polled: false, last_ready: false, done: false, polls: 0 }));
+                self.subs.push(Some(SubSt { sub, mj, armed: None, own_waker: None, same_waker: (self.same_mask >> (mj % 8)) & 1 == 1, ever_polled: false, last_ready: false, done: false, polls: 0 }));
             }
             UpgradeKeep(k) | UpgradeDrop(k) => {
                 let Some(w) = live_idx(&self.weaks, *k) else { return };
@@ -595,7 +604,7 @@ impl<B: Backend> World<B> {
                 let obs = if reset { 0 } else { self.model.subs[st.mj].unwrap() };
                 self.model.subs.push(Some(obs));
                 let mj = self.model.subs.len() - 1;
-                self.subs.push(Some(SubSt { sub, mj, armed: None, ever_polled: false, last_ready: false, done: false, polls: 0 }));
+                self.subs.push(Some(SubSt { sub, mj, armed: None, own_waker: None, same_waker: (self.same_mask >> (mj % 8)) & 1 == 1, ever_polled: false, last_ready: false, done: false, polls: 0 }));
                 self.check_counts();
                 return;
             }
@@ -641,7 +650,7 @@ impl<B: Backend> World<B> {
                     drop(task);
                 } else {
                     let sub = task.sub.lock().unwrap().take().unwrap();
-                    self.subs[j] = Some(SubSt { sub, mj, armed: None, ever_polled: true, last_ready: got != Exp::End, done: got == Exp::End, polls: st.polls + 1 });
+                    self.subs[j] = Some(SubSt { sub, mj, armed: None, own_waker: None, same_waker: false, ever_polled: true, last_ready: got != Exp::End, done: got == Exp::End, polls: st.polls + 1 });
                     if matches!(got, Exp::Value(_)) {
                         self.items += 1;
                     }
@@ -688,6 +697,7 @@ pub fn run_generic<B: Backend>(case: &Case) -> Outcome {
         parked: Vec::new(),
         model: Model::new(cfg.initial),
         audit: cfg.audit_every_step,
+        same_mask: cfg.same_waker_mask,
         counts: cfg.counts,
         adopt: cfg.adopt_unexpected_upgrade,
         step: 0,
